@@ -120,7 +120,13 @@ func genCase(t *rapid.T) arith.Case {
 			c.X = core.Dec{Coeff: one.String(), Exp: int32(-(k + 2))}
 			y := gen.DigitsN(t, k, 0, "bpy")
 			c.Y = core.Dec{Coeff: y, Neg: gen.Pick(t, 4, "bpneg") == 0}
-			if gen.Pick(t, 4, "bpfrac") == 0 { // with a fractional part as well
+			if gen.Pick(t, 3, "bpfold") == 0 {
+				// the same magnitude written with its zeros folded into the exponent: 2E+11
+				lead := rapid.IntRange(1, 2).Draw(t, "bplead")
+				if lead < len(y) {
+					c.Y = core.Dec{Coeff: y[:lead], Exp: int32(len(y) - lead), Neg: c.Y.Neg}
+				}
+			} else if gen.Pick(t, 4, "bpfrac") == 0 { // with a fractional part as well
 				c.Y.Coeff += fmt.Sprint(rapid.IntRange(1, 9).Draw(t, "bpf"))
 				c.Y.Exp = -1
 			}
